@@ -81,20 +81,47 @@ class Build:
             header, text = em.emit()
         except ExtractionError as e:
             raise Undecided(str(e))
-        os.makedirs(self.gen, exist_ok=True)
-        open(os.path.join(self.gen, 'low.h'), 'w').write(header)
-        open(os.path.join(self.gen, 'low.c'), 'w').write(text)
+        # The generated text and its compiled form live under a path that depends only on their content, so that
+        # goto binaries (which embed source paths) are reproducible across runs and the result cache can hit.
+        model_txt = open(os.path.join(ROOT, 'model', 'vf_std.c')).read() + open(os.path.join(ROOT, 'model', 'vf_std.h')).read()
+        digest = hashlib.sha256((header + text + model_txt).encode()).hexdigest()[:20]
+        store_root = os.path.join(os.environ.get('VERIF_SCRATCH', '/var/tmp'), 'ezc3d-verif-gen')
+        os.makedirs(store_root, exist_ok=True)
+        now = time.time()
+        for d in os.listdir(store_root):      # drop generations older than a day
+            pth = os.path.join(store_root, d)
+            try:
+                if now - os.path.getmtime(pth) > 86400:
+                    shutil.rmtree(pth, ignore_errors=True)
+            except OSError:
+                pass
+        store = os.path.join(store_root, digest)
+        self.gen = os.path.join(store, 'gen')
         self.functions = em.functions
         self.t_lower = time.time() - t0
         inc = ['-I', os.path.join(ROOT, 'model'), '-I', self.gen, '-I', os.path.join(ROOT, 'contracts')]
         self.inc = inc
-        for src, out, defs in ((os.path.join(self.gen, 'low.c'), 'low.gb', []),
-                               (os.path.join(self.gen, 'low.c'), 'low_trk.gb', ['-DVF_TRACK_ALLOC']),
-                               (os.path.join(ROOT, 'model', 'vf_std.c'), 'vf_std.gb', []),
-                               (os.path.join(ROOT, 'model', 'vf_std.c'), 'vf_std_trk.gb', ['-DVF_TRACK_ALLOC'])):
-            rc, so, se, _ = sh(['goto-cc', '-D__CPROVER__VF'] + defs + inc + ['-c', src, '-o', os.path.join(self.dir, out)])
-            if rc != 0:
-                raise Undecided('goto-cc failed on %s:\n%s' % (src, (so + se)[-3000:]))
+        self.bin = store
+        if not os.path.exists(os.path.join(store, 'READY')):
+            tmp = tempfile.mkdtemp(prefix='gen.', dir=store_root)
+            os.makedirs(os.path.join(tmp, 'gen'))
+            open(os.path.join(tmp, 'gen', 'low.h'), 'w').write(header)
+            open(os.path.join(tmp, 'gen', 'low.c'), 'w').write(text)
+            try:
+                os.rename(tmp, store)
+            except OSError:
+                shutil.rmtree(tmp, ignore_errors=True)   # another run created the same generation concurrently
+            for src, out, defs in ((os.path.join(self.gen, 'low.c'), 'low.gb', []),
+                                   (os.path.join(self.gen, 'low.c'), 'low_trk.gb', ['-DVF_TRACK_ALLOC']),
+                                   (os.path.join(ROOT, 'model', 'vf_std.c'), 'vf_std.gb', []),
+                                   (os.path.join(ROOT, 'model', 'vf_std.c'), 'vf_std_trk.gb', ['-DVF_TRACK_ALLOC'])):
+                tmpo = os.path.join(store, out + '.%d.tmp' % os.getpid())
+                rc, so, se, _ = sh(['goto-cc', '-D__CPROVER__VF'] + defs + inc + ['-c', src, '-o', tmpo])
+                if rc != 0:
+                    raise Undecided('goto-cc failed on %s:\n%s' % (src, (so + se)[-3000:]))
+                os.replace(tmpo, os.path.join(store, out))
+            open(os.path.join(store, 'READY'), 'w').write('ok')
+        os.utime(store, None)
         return self
 
 
@@ -201,7 +228,7 @@ def unit_cmds(u, b, out):
     igb = os.path.join(out, 'i.gb')
     trk = bool(u.get('track_alloc'))
     cc = ['goto-cc', '-D__CPROVER__VF'] + (['-DVF_TRACK_ALLOC'] if trk else []) + [('-D' + d) for d in u.get('defines', [])] + \
-        b.inc + [os.path.join(b.dir, 'low_trk.gb' if trk else 'low.gb'), os.path.join(b.dir, 'vf_std_trk.gb' if trk else 'vf_std.gb'),
+        b.inc + [os.path.join(b.bin, 'low_trk.gb' if trk else 'low.gb'), os.path.join(b.bin, 'vf_std_trk.gb' if trk else 'vf_std.gb'),
                  src, '--function', u['harness'], '-o', ugb]
     gi = ['goto-instrument']
     if u.get('mode', 'dfcc') == 'dfcc':
